@@ -21,7 +21,7 @@ CHECKS = {
             "all integer times and all unit mixes; Event.__lt__ is proved equal to the documented key (time, type priority, task name) and that "
             "key is proved a strict weak order; EventQueue operations are proved to keep the heap invariant / hand out a minimum given the "
             "stated heapq library contracts; a lemma shows consecutive pops are non-decreasing; a scan pins the in-place re-timing sites and the simulator "
-            "obligations at those sites require re-heapification. Unbounded in values and queue contents."
+            "obligations at those sites require re-heapification. Unbounded in values and queue contents. A bounded reference-model cross-check (bounded/eventqueue.py) gives concrete replays."
         ),
         note=BASE_NOTE + " Specific: float exactness of int(time*1e3|1e6) below 2^53 is assumed (floats modelled as reals); heapq/list.remove behaviour is a stated library contract.",
         design_ref="DESIGN.md section 6 (C16)",
@@ -127,10 +127,12 @@ CHECKS.update(
             text=(
                 "Proved for all inputs: Task.start raises unless the task is SCHEDULED and asserts start_time >= release_time (obligation start.after_release), moves to RUNNING "
                 "exactly once per SCHEDULED/PREEMPTED episode (lemmas over the transition relation: RUNNING is entered only from SCHEDULED or PREEMPTED, COMPLETED only from "
-                "RUNNING/PREEMPTED and is final); the event-priority lemma orders finish < release < placement at one timestamp. Bounded: in enumerated small worlds no task starts "
-                "before its release or before its predecessors complete, and starts/completes at most once. The placement handler's guard is not yet under contract (bounded only)."
+                "RUNNING/PREEMPTED and is final); the event-priority lemma orders finish < release < placement at one timestamp. Task.is_ready_to_run is proved equal to the readiness "
+                "spec (join: some parent complete; otherwise all parents complete; state SCHEDULED or PREEMPTED) and Simulator.__handle_task_placement is proved to start a task only "
+                "when that test held (obligation placement.guarded), at the event's time, and to re-queue it strictly later otherwise; __handle_task_finished is proved to queue only "
+                "release/cancel events that are not in the past. Bounded: in enumerated small worlds no task starts before its release or its predecessors, and starts/completes at most once."
             ),
-            note=BASE_NOTE + " Specific: the composition argument (release event before placement event at the same instant) relies on the C16 ordering lemmas; handler-level obligation pending.",
+            note=BASE_NOTE + " Specific: the composition argument (release event before placement event at the same instant) relies on the C16 ordering lemmas; TaskGraph.cancel / is_cancelled / notify_task_completion, WorkerPool.place_task / remove_task are assumed contracts at the handlers (their own behaviour is decided by the bounded stand-ins).",
             design_ref="DESIGN.md section 6 (C02)",
         ),
         "C03": dict(
@@ -140,7 +142,9 @@ CHECKS.update(
                 "Proved for all inputs: Task.step reports completion iff 0 < remaining <= step (under last_step_time == now), leaves remaining exactly reduced otherwise, "
                 "and stamps the finish at now + remaining; Task.start keeps the strategy runtime exactly without variance and within [r, r(1+v/100)+1/2] with it; "
                 "Simulator.__step refuses negative steps (clock never backwards), advances the clock by exactly the step and stamps every TASK_FINISHED event with the new clock value, "
-                "keeping the event heap valid. Bounded: finish - start == runtime, resources held over exactly [s, s+r], events handled at their own time and in order, start >= chosen time."
+                "keeping the event heap valid; Worker.step returns exactly the placed RUNNING tasks whose step reports completion; the placement handler starts a task exactly at the "
+                "event's time and the finish handler stamps completion with the time the last step reached. Bounded: finish - start == runtime, resources held over exactly [s, s+r], "
+                "events handled at their own time and in order, start >= chosen time; EventQueue cross-check against a reference model."
             ),
             note=BASE_NOTE + " Specific: WorkerPool.step is an assumed contract; floats as reals in fuzz; the exact upper bound of fuzz is a known finding (rounding).",
             design_ref="DESIGN.md section 6 (C03)",
@@ -149,8 +153,8 @@ CHECKS.update(
             category="proof",
             technique=PYVC + " (safety half only: clock progress obligations); " + WORLDS + " with CPU-time alarms for termination; liveness is NOT decided",
             text=(
-                "Deductive verification is silent on liveness. Proved: __step never moves the clock backwards and Task.step's zero-remaining behaviour is pinned by contract (the root of the "
-                "known zero-runtime livelock). Bounded: every enumerated small world must reach a single SIMULATOR_END no later than the timeout, complete all tasks under a "
+                "Deductive verification is silent on liveness. Proved: __step never moves the clock backwards, Task.step's zero-remaining behaviour is pinned by contract (the root of the "
+                "known zero-runtime livelock), and a placement that is neither applied nor dropped is re-queued STRICTLY later (obligation placement.retry_strictly_later: no same-instant retry loop). Bounded: every enumerated small world must reach a single SIMULATOR_END no later than the timeout, complete all tasks under a "
                 "work-conserving policy, and never end with released runnable work. The general claims 'every run terminates' and 'feasible work always finishes' are whole-history "
                 "liveness and are not decided by any contract here."
             ),
@@ -160,8 +164,8 @@ CHECKS.update(
         "C08": dict(
             category="exploration",
             technique=WORLDS + ": CSV trace and counters compared with the observed run, trace fed to the project's CSVReader",
-            text="Bounded stand-in only (the handlers' row/counter obligations are not yet under contract): per world, the SIMULATOR_END counters, every row's fields, scheduler rows and reader reconstruction are compared with what the observer saw.",
-            note="Bounded; sampled worlds (not exhaustive); observer wraps Task/Worker methods in the checking process.",
+            text="Bounded stand-in for rows / reader (per world, the SIMULATOR_END counters, every row's fields, scheduler rows and the reader's reconstruction are compared with what an observer saw) plus pyvc obligations on Simulator.__handle_task_finished: the finished counter moves by exactly one, the missed-deadline counter moves iff completion is later than the deadline, graph counters move at most once and only together.",
+            note="Bounded; sampled worlds (not exhaustive); observer wraps Task/Worker methods in the checking process. The CSV rows themselves (f-strings) are not modelled by pyvc.",
             design_ref="DESIGN.md section 6 (C08)",
         ),
         "C09": dict(
